@@ -34,7 +34,7 @@ import hashlib
 import itertools
 import re
 
-from harness.core import hx, setup_repo_path
+from harness.core import hx, hxlist, setup_repo_path
 
 # the pattern text the Lean model (lean/CG/Model/Name.lean) was written for; the lane compares utils.py with it
 PATTERN = r'^(?s:(.+?\n*))(?: lag\(n=(\d+)\))?(?: future\(n=(\d+)\))?$'
@@ -125,8 +125,10 @@ def _impl():
     if not _IMPL:
         setup_repo_path()
         from cai_causal_graph.graph_components import TimeSeriesNode
-        from cai_causal_graph.utils import get_name_with_lag, get_variable_name_and_lag
-        _IMPL.update(parse=get_variable_name_and_lag, name=get_name_with_lag, node=TimeSeriesNode)
+        from cai_causal_graph.graph_components import Node
+        from cai_causal_graph.utils import extract_names_and_lags, get_name_with_lag, get_variable_name_and_lag
+        _IMPL.update(parse=get_variable_name_and_lag, name=get_name_with_lag, node=TimeSeriesNode,
+                     extract=extract_names_and_lags, plain_node=Node)
     return _IMPL
 
 
@@ -139,6 +141,28 @@ def _reply_parse(fn, s):
     if not isinstance(v, str) or not isinstance(k, int) or isinstance(k, bool):
         return f'bad-types {type(v).__name__} {type(k).__name__}', None
     return f'ok {hx(v)} {k}', (v, k)
+
+
+def _reply_extract(fn, names):
+    """canonical reply of extract_names_and_lags: `ok <hexvar>:<lag>,... <max>` | err ValueError"""
+    try:
+        r = fn(names)
+    except ValueError:
+        return 'err ValueError', None
+    try:
+        dicts, mx = r
+        pairs = []
+        for d in dicts:
+            (v, k), = d.items()
+            if not isinstance(v, str) or not isinstance(k, int) or isinstance(k, bool):
+                return f'bad-types {type(v).__name__} {type(k).__name__}', None
+            pairs.append((v, k))
+        if not isinstance(mx, int) or isinstance(mx, bool):
+            return f'bad-types max {type(mx).__name__}', None
+    except Exception as e:  # noqa: BLE001
+        return f'bad-shape {type(e).__name__}', None
+    body = ','.join(f'{hx(v)}:{k}' for v, k in pairs) if pairs else '.'
+    return f'ok {body} {mx}', (pairs, mx)
 
 
 def _reply_name(fn, s, k):
@@ -228,6 +252,50 @@ def run_name_case(case):
                     oracle.append(f'get_name_with_lag({nk!r}, 0) == {n0!r}, expected the bare name {v!r}')
     else:
         raise ValueError(f'unknown name case kind {kind!r}')
+
+    # the bulk form `extract_names_and_lags` on sub-lists of the batch (names as strings or as Node objects), and the
+    # Node-object / wrong-type forms of the single parser
+    import random as _random
+    lrng = _random.Random(hashlib.sha1(repr(case['items']).encode('utf-8', 'surrogatepass')).hexdigest())
+    strings = [it if isinstance(it, str) else _expected_name(it[0], it[1]) for it in case['items']]
+    good = [x for x in strings if _reply_parse(parse, x)[1] is not None]
+    for trial in range(6):
+        pool = good if (trial % 3 != 2 and good) else strings
+        names = [lrng.choice(pool) for _ in range(lrng.choice((0, 1, 2, 3, 5, 8)))] if pool else []
+        as_nodes = trial % 2 == 1
+        try:
+            args = [I['plain_node'](x) if (as_nodes and i % 2 == 0) else x for i, x in enumerate(names)]
+        except Exception:  # noqa: BLE001  (an identifier the Node class refuses)
+            args = list(names)
+        rep, val = _reply_extract(I['extract'], args)
+        lines.append('name extract ' + hxlist(names)); impl.append(rep)
+        tags.append('extract:' + rep.split(' ')[0] + ('' if val is None else f':{min(len(names), 3)}'))
+        if val is not None:
+            pairs, mx = val
+            singles = [_reply_parse(parse, x)[1] for x in names]
+            if pairs != singles:
+                oracle.append(f'extract_names_and_lags({names!r}) lists {pairs!r}, the single parser gives {singles!r}')
+            lags = [k for _, k in pairs]
+            want = 0
+            for k in lags:
+                if abs(k) > abs(want):
+                    want = k
+            if mx != want:
+                oracle.append(f'extract_names_and_lags({names!r}) reports maximum lag {mx!r}, the lags are {lags!r}')
+        elif all(_reply_parse(parse, x)[1] is not None for x in names):
+            oracle.append(f'extract_names_and_lags({names!r}) failed ({rep}) although every name parses')
+    if good:
+        x = lrng.choice(good)
+        rn, _ = _reply_parse(parse, I['plain_node'](x))
+        lines.append('name parse ' + hx(x)); impl.append(rn)
+    for bad in (5, None, 2.5, ('a',), b'a'):
+        try:
+            parse(bad)
+            oracle.append(f'get_variable_name_and_lag({bad!r}) did not raise')
+        except TypeError:
+            pass
+        except Exception as e:  # noqa: BLE001
+            oracle.append(f'get_variable_name_and_lag({bad!r}) raised {type(e).__name__}, documented: TypeError')
 
     key = hashlib.sha1(repr(case['items']).encode('utf-8', 'surrogatepass')).hexdigest()[:16]
     return {'lines': lines, 'impl': impl, 'oracle': oracle, 'nontrivial': nontrivial, 'key': key, 'tags': tags}
